@@ -301,6 +301,9 @@ FORCED = {  # re-confirmation of the open findings on every run (witness inputs,
                [0.5061668139043344, 0.12910091907140214], [0.9207922668067348, 0.55349967059448], [0.8658741823229579, 0.23323007832615733]]),
     # (found by the thorough tier, seed 1: two affinity entries fall 1e-8 -> 1e-15 -> 1e-30 -> 0.0, the tenth update is 0 * inf)
     11: dict(N=5, K=3, edges=[(0, 3), (1, 4), (2, 4)], assortative=False, w_prior=0.0, u_prior=1.0, mode="both-inferred", seed=1513829515, T=10),
+    # (same sweep: a community is left with one member of weight 0.07, the others at 1e-18 ... 1e-22; the denominator of its affinity
+    # update, computed as (sum u)^2 - sum u^2, cancels to a non-positive number and the quotient is -inf)
+    14: dict(N=4, K=3, edges=[(0, 1), (1, 2, 3), (2, 3)], assortative=False, w_prior=0.0, u_prior=1.0, mode="both-inferred", seed=465552935, T=21, D_given=3),
 }
 
 
@@ -380,7 +383,7 @@ def fit_case(ctx, rng, idx):
     trace = {"w": 0, "u": 0, "bad": None}
     orig_w, orig_u = getattr(mm.HyMMSBM, "_w_update", None), getattr(mm.HyMMSBM, "_u_update", None)  # private: watched when present
 
-    def judge_iter(self, name, val):
+    def judge_iter(self, name, val, args=()):
         trace[name] += 1
         if trace["bad"]:
             return
@@ -395,8 +398,29 @@ def fit_case(ctx, rng, idx):
                 w_under = (not assortative) and np.all(np.isfinite(pw)) and np.all(np.isfinite(cur)) and bool(np.any(np.abs(pw) < 1e-100))
             except Exception:
                 pass
+            pp_bad = False
+            if not under and not w_under and name == "w" and args:
+                # ... or is the Poisson parameter of a DATA hyperedge, as the model itself evaluates it from the current (finite)
+                # parameters, zero or negative (the pair-sum identity cancels), so that the update divides by it?
+                try:
+                    pp = np.asarray(self.poisson_params(args[0]), dtype=float)
+                    pp_bad = np.all(np.isfinite(cur)) and np.all(np.isfinite(np.asarray(self.w, dtype=float))) and bool(np.any(~(pp > 0)))
+                except Exception:
+                    pp_bad = False
+            den_bad = False
+            if not under and not w_under and not pp_bad and name == "w":
+                # ... or is the denominator of the affinity update, sum_{i<j} u_ia u_jb (+ prior), zero or negative for some pair of
+                # communities - a community left with (numerically) one member?
+                try:
+                    us = cur.sum(axis=0)
+                    den = 0.5 * (np.outer(us, us) - cur.T @ cur) + (self.w_prior if np.ndim(self.w_prior) else float(self.w_prior))
+                    den_bad = np.all(np.isfinite(cur)) and bool(np.any(~(den > 0)))
+                except Exception:
+                    den_bad = False
             trace["bad"] = ("non-finite-parameters:after-community-underflow" if under
-                            else "non-finite-parameters:after-affinity-entry-underflow" if w_under else f"{name}-iterate-not-finite")
+                            else "non-finite-parameters:after-affinity-entry-underflow" if w_under
+                            else "non-finite-parameters:poisson-parameter-of-a-data-hyperedge-not-positive" if pp_bad
+                            else "non-finite-parameters:affinity-update-denominator-not-positive(community-with-one-member)" if den_bad else f"{name}-iterate-not-finite")
         elif np.any(val < -1e-12):
             trace["bad"] = f"{name}-iterate-negative"
         elif name == "w":
@@ -412,7 +436,7 @@ def fit_case(ctx, rng, idx):
     def w_wrapped(self, *a, **k):
         v = orig_w(self, *a, **k)
         try:
-            judge_iter(self, "w", v)
+            judge_iter(self, "w", v, a)
         except Exception as e:  # the monitor must not change what fit() does
             ctx.note("trace-monitor-error:" + type(e).__name__)
         return v
@@ -458,7 +482,8 @@ def fit_case(ctx, rng, idx):
                 under = prev is not None and np.all(np.isfinite(prev)) and float(np.abs(prev).max(axis=0).min()) < 1e-100
                 w_under = (not under) and (not assortative) and prev_w is not None and np.all(np.isfinite(prev_w)) and bool(np.any(np.abs(prev_w) < 1e-100))
                 mech = ("C15:fit:non-finite-parameters:after-community-underflow" if under
-                        else "C15:fit:non-finite-parameters:after-affinity-entry-underflow" if w_under else "C15:fit:parameters-not-finite")
+                        else "C15:fit:non-finite-parameters:after-affinity-entry-underflow" if w_under
+                        else "C15:fit:" + str(trace["bad"]) if str(trace["bad"]).startswith("non-finite-parameters:") else "C15:fit:parameters-not-finite")
                 ctx.check("C15:fit-iterate", False, mech, lambda: wit((n_iter, m.u.tolist(), m.w.tolist())))
                 break
             ctx.check("C15:fit-iterate", bool(np.all(m.u >= -1e-12) and np.all(m.w >= -1e-12)), "C15:fit:parameters-negative", lambda: wit((n_iter, m.u.tolist(), m.w.tolist())))
